@@ -127,6 +127,13 @@ f([m1, k, m2, \"é\", m3]);
            rules: vec![r1.clone(), r4.clone(),
                        json!({"sgconfig": {"languageInjections": [{"hostLanguage": "js", "rule": {"pattern": "styled`$CONTENT`"}, "injected": "css"}]}})],
            stmt_mode: false },
+    // two fixable rules on the very same nodes, the second one silenced by name on one line: the first one's fix is
+    // applied there, the suppression comment is in use (and stays), and where both apply one fix wins
+    Case { id: "scan-two-fixes-one-node".into(),
+           files: vec![("z.js".into(), "foo(1); // ast-grep-ignore: zz-second\nfoo(2);\n// ast-grep-ignore: zz-second\nfoo(3);\nfoo(4); // ast-grep-ignore: aa-first\n".into())],
+           rules: vec![json!({"id": "aa-first", "language": "JavaScript", "severity": "warning", "message": "m", "rule": {"pattern": "foo($A)"}, "fix": "bar($A)"}),
+                       json!({"id": "zz-second", "language": "JavaScript", "severity": "warning", "message": "m", "rule": {"pattern": "foo($A)"}, "fix": "baz($A)"})],
+           stmt_mode: false },
     Case { id: "scan-no-match".into(), files: vec![("n.js".into(), "keep();\n".into())], rules: vec![r1], stmt_mode: false },
   ]
 }
